@@ -43,7 +43,9 @@ def _inline(callee: Callee, depth: int) -> bool:
     if name == 'set':
         return callee.fn.cls is not None and callee.fn.cls.qn == TRACKED
     if name == '__aenter__':
-        return callee.fn.cls is not None and callee.fn.cls.qn == BORROWED
+        # BorrowedResources.__aenter__, also when a private base class defines it
+        return callee.fn.cls is not None and (
+            callee.fn.cls.qn == BORROWED or callee.fn.cls.name.startswith('_'))
     return name in INLINE
 
 
@@ -207,7 +209,7 @@ def run(check, an: Analysis):
                            path=rules.path_lines(path))
     # ---- D ------------------------------------------------------------------
     guard_forms = {}
-    for fn, node, frame in rules.call_sites_of(an, BASE + '.__remove_resources__'):
+    for fn, node, frame in rules.call_sites_of(an, an.method(BASE, '__remove_resources__').qn):
         where = '%s:%d' % (fn.module.relpath, node.lineno)
         recv_text = ast.unparse(node.func.value) if isinstance(node.func, ast.Attribute) \
             else '?'
